@@ -50,6 +50,10 @@ def run(tier, replay=None):
     for lit, val in CHARS:
         cases.append(mk({"kind": "char", "notation": "char", "ctx": "li", "lit": lit, "value": val,
                          "line": CTX_LINE["li"].format(lit)}))
+    ccases, cres = tlc_generate("Gen_CharLit")
+    out.add_tlc(cres)
+    for c in ccases:
+        cases.append(mk(c))
     r = rng("lit")
     n_rand = 1500 if tier == "quick" else 40000
     for _ in range(n_rand):
